@@ -1543,7 +1543,8 @@ def main(args=None):
                 # Only use basename to prevent path traversal attacks
                 filename = os.path.basename(vf.filename)
             else:
-                filename = vf.name + ".{ext}"
+                # likewise for the name, which comes from the same document
+                filename = os.path.basename(vf.name) + ".{ext}"
             vf_name_to_output_path[vf.name] = os.path.join(output_dir, filename)
 
     vf_names_to_build = {vf.name for vf in vfs_to_build}
